@@ -10,7 +10,7 @@ def run(rep, tier):
     lib.proof_gate(rep, PROP, THEOREMS, IMPORTS)
     n, cyc = (90, 400) if tier == "quick" else (4000, 700)
     n = rep.scale(n)
-    agg = runner.correspondence(rep, prop=PROP, mod_name="harness.csrmonsim", driver_kind="csrmon", ncases=n, extra=(cyc,),
+    agg = runner.correspondence(rep, prop=PROP, mod_name="harness.csrmonsim", legal_only=True, driver_kind="csrmon", ncases=n, extra=(cyc,),
                                 nontrivial=lambda r: r["stats"].get("w1c_done", 0) >= 2 and r["stats"].get("enable_readbacks", 0) >= 1 and r["stats"]["events"] >= 1,
                                 sample_fmt=lambda r: {"monitor": r.get("descr"), "layout": r["obs"][0], "cycles (addr r_stb w_stb w_data sources)": r["lines"][1:5], "observed (r_data irq)": r["obs"][1:5]})
     rep.coverage.update(agg)
